@@ -1,4 +1,4 @@
-\* FINDING F6 (STALE2), expected counterexample (ProposalsOnMain): tree T4j: the valid prefix of a reorganisation that is given up leaves a proposal that is not on the main chain
+\* BEFORE REPAIR fb65fdad (Fixes without onchain), counterexample to ProposalsOnMain: tree T4j: the valid prefix of a reorganisation that is given up left a proposal that is not on the main chain
 SPECIFICATION Spec
 CONSTANTS
   N = 4
@@ -11,7 +11,7 @@ CONSTANTS
   ByzRanges <- R123
   Runs = TRUE
   BadKinds <- OnlyOk
-  Fixes <- AllFixes
+  Fixes <- BeforeF56
 VIEW view
 INVARIANTS ProposalsOnMain
 CHECK_DEADLOCK FALSE
